@@ -41,6 +41,10 @@ def families(tier: str) -> list[dict]:
         dict(model='nd', decay=0.8, accum=1, in_hook=True,
              factor_dtype='float64', F=2, I=2),
         dict(model='conv2', decay=0.6, accum=2, in_hook=True, F='int_1_2'),
+        dict(model='mlp2', decay=0.9, accum=1, in_hook=True,
+             factor_dtype='bfloat16'),
+        dict(model='mixb', decay=0.8, accum=2, in_hook=False,
+             factor_dtype='float16'),
     ]
     if not quick:
         variants += [
